@@ -74,6 +74,11 @@ def letters(seed):
         ("M(a,b;ci,inv=(1,0),conf1@b,conf1@a)", cirq.measure(a, b, key="ci", invert_mask=(True, False),
                                                               confusion_map={(1,): conf1, (0,): conf1}), None, (), True, False),
         ("M(b;cj,inv=(1,),conf1)", cirq.measure(b, key="cj", invert_mask=(True,), confusion_map={(0,): conf1}), None, (), True, False),
+        ("CNOT(b,a)", cirq.CNOT(b, a), None, (), True, False),
+        ("X(b)", cirq.X(b), None, (), True, False),
+        ("X(b)?(m[0]&1==1)", cirq.X(b).with_classical_controls(
+            cirq.BitMaskKeyCondition("m", index=0, bitmask=1, target_value=1, equal_target=True)), None, ("m",), True, False),
+        ("Z(a)?m[0]", cirq.Z(a).with_classical_controls(cirq.KeyCondition(cirq.MeasurementKey("m"), 0)), None, ("m",), True, False),
     ]
     return L
 
@@ -481,6 +486,11 @@ def stages(tier, seed):
         for seq in itertools.product(corel, repeat=3):
             if valid_seq(seq):
                 seqs.append(seq)
+    split_core = [0, 3, 19, 20, 21, 2, 22]
+    have = set(seqs)
+    split_seqs = [seq for n in (3, 4) for seq in itertools.product(split_core, repeat=n) if valid_seq(seq) and seq not in have]
+    split_set = set(split_seqs)
+    seqs = seqs + split_seqs
     cases = []
     for seq in seqs:
         uses_qt = any(_L[i][5] for i in seq)
@@ -493,13 +503,15 @@ def stages(tier, seed):
                 for ci in range(len(CONFIGS)):
                     if CONFIGS[ci][0] == "ss":
                         continue
+                    if seq in split_set and (ci not in (0, 1, 4, 7) or layout == 0):
+                        continue
                     if CONFIGS[ci][0] == "cl" and not _P[prep_i][2]:
                         continue
                     cases.append((prep_i, seq, layout, ci))
     run_cases = []
     maxr = 2
     for seq in seqs:
-        if len(seq) > (2 if tier == "quick" else 2):
+        if len(seq) > 2 and seq not in split_set:
             continue
         uses_qt = any(_L[i][5] for i in seq)
         for prep_i in range(len(_P)):
@@ -507,6 +519,8 @@ def stages(tier, seed):
                 continue
             for ci in (0, 1, 3, 4, 6, 8):
                 if CONFIGS[ci][0] in ("cl", "ss") and not _P[prep_i][2]:
+                    continue
+                if seq in split_set and ci not in (0, 1, 4, 6):
                     continue
                 for reps in ((1, 2) if len(seq) <= maxr else (1,)):
                     run_cases.append((prep_i, seq, 1, ci, reps))
